@@ -261,17 +261,25 @@ func transformSpec(s string) string {
 			return fmt.Sprintf("__%s(func(%s) bool { return %s })", q, binders, body)
 		}
 	}
+	// a quantifier that starts before the first top-level implication scopes over the rest of the text
+	qi := -1
+	for _, q := range []string{"forall", "exists"} {
+		if i := topLevelIndex(s, " "+q+" "); i >= 0 && (qi < 0 || i < qi) {
+			qi = i
+		}
+	}
+	ii := topLevelIndex(s, "<==>")
+	if j := topLevelImplies(s); j >= 0 && (ii < 0 || j < ii) {
+		ii = j
+	}
+	if qi >= 0 && (ii < 0 || qi < ii) {
+		return s[:qi+1] + transformSpec(s[qi+1:])
+	}
 	if i := topLevelIndex(s, "<==>"); i >= 0 {
 		return fmt.Sprintf("__iff(%s, %s)", transformSpec(s[:i]), transformSpec(s[i+4:]))
 	}
 	if i := topLevelImplies(s); i >= 0 {
 		return fmt.Sprintf("__implies(%s, %s)", transformSpec(s[:i]), transformSpec(s[i+3:]))
-	}
-	// a quantifier after a leading operator context, e.g. "a && forall ...": handle by finding top-level " forall "
-	for _, q := range []string{"forall", "exists"} {
-		if i := topLevelIndex(s, " "+q+" "); i >= 0 {
-			return s[:i+1] + transformSpec(s[i+1:])
-		}
 	}
 	// recurse into groups
 	var sb strings.Builder
@@ -474,6 +482,10 @@ func (e *Engine) installSpecObjs(pkg *types.Package) {
 	mk("strLower", []types.Type{strT}, strT, false)
 	mk("allocated", []types.Type{anyT}, boolT, false)
 	mk("isType", []types.Type{anyT, strT}, boolT, false)
+	mk("commits", nil, types.Typ[types.Int], false)
+	mk("itPos", []types.Type{anyT}, types.Typ[types.Int], false)
+	mk("itLen", []types.Type{anyT}, types.Typ[types.Int], false)
+	mk("itElem", []types.Type{anyT, types.Typ[types.Int]}, anyT, false)
 	mk("committed", []types.Type{anyT}, boolT, false)
 	mk("aborted", []types.Type{anyT}, boolT, false)
 }
